@@ -199,6 +199,29 @@ def check_union(repo, res, rule):
     res.count(rule + '_scenarios', n + 5, floor=8)
 
 
+def check_same_line(repo, res, rule):
+    """Two queries on one physical line of one region, with a binding taking effect between them, asked in both orders."""
+    m = get_model(repo)
+    top = m.scope('SourceScope', Obj(m.cls('BaseScope'), {'names': {}}, 'builtins'))
+    for order in ('left-to-right', 'right-to-left'):
+        def scenario(order=order):
+            pre = m.flow('pre', top)
+            old = m.name('a', (1, 0))
+            m.add(pre, old)
+            f = m.flow('f', top, [pre])
+            new = m.name('a', (3, 10))          # a = f(x); g(a)   -- binding takes effect at column 10
+            m.add(f, new)
+            cols = [(3, 4), (3, 14)] if order == 'left-to-right' else [(3, 14), (3, 4)]
+            got = {}
+            for c in cols:
+                got[c] = m.describe(m.lookup(m.names_at(f, c), 'a'))
+            ok = got[(3, 4)] == frozenset([old.oid]) and got[(3, 14)] == frozenset([new.oid])
+            return ok, 'line 3: read at column 4 -> %s (want the earlier binding), at column 14 -> %s (want the one made at ' \
+                'column 10), asked %s' % (sorted(got[(3, 4)] or []), sorted(got[(3, 14)] or []), order)
+        _guard(scenario, res, rule, 'two reads on one line around a binding (%s)' % order, SCOPE,
+               'names_at must decide visibility by (line, column): statements joined on one line are analysed like separate lines')
+
+
 def check_undefined(repo, res, rule):
     """C03-R2: the undefined marker and the collapse rule."""
     m = get_model(repo)
